@@ -121,7 +121,7 @@ class Scenario:
         def fee(prefix):
             acct = self.s(prefix + '.account')
             rate, n, d = self.decimal_string(prefix + '.rate', 0)
-            self.assume += [f_addr_ok(acct), n <= d]
+            self.assume += [f_addr_ok(acct), n <= d, acct != CONTRACT]
             return some(ti.mk('FeeInfo', account=Addr(acct), rate=rate))
         afi = fee('cfg.ask_fee') if ask_fee else NONE()
         bfi = fee('cfg.bid_fee') if bid_fee else NONE()
@@ -155,6 +155,7 @@ class Scenario:
         key = self.s(px + '.key')
         self.assume.append(f_uuid_ok(key))
         owner = self.s(px + '.owner')
+        self.assume.append(owner != CONTRACT)
         size = self.i(px + '.size', 1, self.b.B)
         price, pn, pd = self.price_inv(px)
         quote = self.s(px + '.quote')
@@ -172,6 +173,7 @@ class Scenario:
                 klass = Adt('AskOrderClass', 'Convertible', [Adt('AskOrderStatus', 'PendingIssuerApproval', [])])
             else:
                 approver = self.s(px + '.approver')
+                self.assume.append(approver != CONTRACT)
                 klass = Adt('AskOrderClass', 'Convertible', [ti.mk('AskOrderStatus', 'Ready', approver=Addr(approver), converted_base=Coin(base_denom, size))])
         ask = ti.mk('AskOrderV1', id=key, owner=Addr(owner), **{'class': klass}, base=base, quote=quote, price=price, size=U(size))
         pres = z3.BoolVal(True) if present is True else present
@@ -191,6 +193,7 @@ class Scenario:
         key = self.s(px + '.key')
         self.assume.append(f_uuid_ok(key))
         owner = self.s(px + '.owner')
+        self.assume.append(owner != CONTRACT)
         inc = self.sym['cfg.increment']
         base_amt = self.i(px + '.base', 1, self.b.B)
         kb = self.i(px + '.base_lots', 1, self.b.B)
@@ -241,6 +244,7 @@ class Scenario:
 
     def info(self, nfunds=0):
         sender = self.s('req.sender')
+        self.assume.append(sender != CONTRACT)        # the contract never calls itself (it emits no wasm messages)
         funds = []
         for k in range(nfunds):
             funds.append(Coin(self.s('req.fund%d.denom' % k), self.i('req.fund%d.amount' % k, 0, self.b.B * 4)))
@@ -253,13 +257,14 @@ class Scenario:
         self.shape['n_attrs'] = n
 
     # ---------- running
-    def run_entry(self, fn, args, readonly=False, max_paths=200000):
-        """run crate function `fn` from MIR on this scenario; yields finished path states"""
+    def run_entry(self, fn, args, readonly=False, max_paths=200000, world=None, pc=None):
+        """run crate function `fn` from MIR on this scenario (or from a given world / path condition); yields finished path states"""
         eng = self.eng
         st = State()
-        st.world = clone(self.world, {})
+        st.world = clone(world if world is not None else self.world, {})
         st.world.readonly = readonly
-        st.pc = list(self.assume)
+        st.world.log = []
+        st.pc = list(pc if pc is not None else self.assume)
         out = Cell()
         eng.body(fn)
         eng.functions_entered.add(fn)
